@@ -136,4 +136,22 @@ def run_rule(run, rule_id="F-SHADOW", prefixes=("cohdl/",)):
     run.ob(True, "package", file="cohdl/", line=0, detail="chains", expected="no shadowed kind test", found=f"{n} exclusive branch chains examined, {len(res)} shadowed tests")
     if n < 50:
         raise AnalysisError(f"{rule_id}: only {n} branch chains found")
+    # positive control (expected count on the tree is zero): the rule must fire on a known-bad fragment on every run
+    from ..index import ModuleInfo
+    ctl = ModuleInfo("cohdl/_verif_control_shadow.py", CONTROL)
+    cres, _ = shadowed(run.idx, [ctl])
+    if len(cres) != 1:
+        raise AnalysisError(f"{rule_id}: positive control did not fire ({len(cres)} reports)")
+    run.note("positive control fired: " + cres[0][3])
     run.end()
+
+
+CONTROL = """
+def fmt(vhdl_type, value_type, s):
+    if issubclass(vhdl_type, Signed):
+        if issubclass(value_type, BitVector):
+            return "std_logic_vector(" + s + ")"
+        if issubclass(value_type, Unsigned):
+            return "unsigned(std_logic_vector(" + s + "))"
+    return s
+"""
